@@ -52,10 +52,56 @@ def generate(rng: random.Random, tier: str):
         n = rng.randint(2, nmax)
         cases.append({'kind': 'cg', 'n': n, 'sys': rng.choice(['lowrank', 'generic', 'generic']), 'start': rng.choice(['none', 'zero', 'random']),
                       'budget': rng.choice([150, 400]), 'tol': '0', 'batch': rng.choice([1, 1, 2]), 'seed': rng.randrange(1 << 30)})
+    # the same in single precision (the dtype of MR data): the recursively updated residual underflows after a few dozen iterations
+    for _ in range(30 if thorough else 8):
+        n = rng.choice([6, 12, 24, 36])
+        cases.append({'kind': 'cg_single', 'n': n, 'sys': rng.choice(['lowrank', 'generic', 'generic']), 'start': rng.choice(['none', 'zero', 'random']),
+                      'budget': rng.choice([150, 400, 1000]), 'batch': rng.choice([1, 2]), 'scale_exp': rng.choice([0, 0, -10, 10]), 'seed': rng.randrange(1 << 30)})
     return cases
 
 
+def run_single(case, drv) -> Outcome:
+    """budgets far beyond n, tolerance 0, single precision: once converged the result stays the solution (to single precision)"""
+    import mrpro
+    from mrpro.algorithms.optimizers import cg
+
+    rng = random.Random(case['seed'])
+    n, batch = case['n'], case['batch']
+    # well conditioned systems with n distinct generic eigenvalues (normal equations of a random matrix plus a multiple of the
+    # identity, like A^H A + lambda I of a reconstruction): the residual decays smoothly through the subnormal range
+    gen = torch.Generator().manual_seed(case['seed'])
+    cplx = case['seed'] % 2 == 0
+    blocks = []
+    for _ in range(batch):
+        G = torch.randn(n, n, generator=gen, dtype=torch.float64) + (1j * torch.randn(n, n, generator=gen, dtype=torch.float64) if cplx else 0)
+        blocks.append((G.conj().T @ G / n + 0.5 * torch.eye(n)).to(torch.complex128))
+    Hbatch = torch.stack(blocks)
+    xs = int_tensor(rng, (batch, n), complex_=cplx, lo=-3, hi=3).to(torch.complex128)
+    b = torch.einsum('bij,bj->bi', Hbatch, xs)
+    dtype = torch.complex64 if cplx else torch.float32
+    sc = 2.0 ** case.get('scale_exp', 0)
+    x0 = None if case['start'] == 'none' else (torch.zeros_like(b) if case['start'] == 'zero' else int_tensor(rng, (batch, n), complex_=cplx, lo=-3, hi=3).to(torch.complex128))
+    Hop = mrpro.operators.EinsumOp(Hbatch.to(dtype))
+    b_in = (b * sc).to(dtype)
+    x0_in = None if x0 is None else (x0 * sc).to(dtype)
+    st, x = call(lambda: cg(Hop, b_in, initial_value=x0_in, max_iterations=case['budget'], tolerance=0.0))
+    if st != 'ok':
+        return Outcome(key=('cg-single-raises', str(case)), viol={'signature': 'cg:single:raises', 'what': f'cg raised {x} for {case}'})
+    viol = None
+    cond = float(torch.linalg.cond(torch.block_diag(*blocks)))
+    xd = (x / sc).reshape(-1).to(torch.complex128)
+    if not bool(torch.isfinite(torch.view_as_real(xd)).all()):
+        viol = {'signature': 'cg:single:nonfinite', 'what': f'cg returns non-finite values in single precision for an HPD system: {case}'}
+    elif case['budget'] >= batch * n and float((xd - xs.reshape(-1)).abs().max()) > 1e-5 * cond * max(1.0, float(xs.abs().max())):
+        viol = {'signature': 'cg:single:n-steps', 'what': f'after {case["budget"]} >= n = {batch * n} iterations with tolerance 0 the single precision result is '
+                                                           f'{float((xd - xs.reshape(-1)).abs().max()):.3g} away from the solution (condition number {cond:.3g}) ({case})'}
+    return Outcome(key=('cg_single', n, batch, case['sys'], case['start'], case['budget'], case['scale_exp'], case['seed'] % 17), viol=viol,
+                   branches=['single', f'budget:{case["budget"]}', f'scale:2^{case["scale_exp"]}'], sample=case)
+
+
 def run(case, drv) -> Outcome:
+    if case['kind'] == 'cg_single':
+        return run_single(case, drv)
     import mrpro
     from mrpro.algorithms.optimizers import cg
 
